@@ -329,6 +329,87 @@ def falsify_scaling(rnd, gen, budget):
     return None
 
 
+def falsify_evolve(rnd, gen, budget):
+    """MPSBackendImpl._evolve(l, r, dt, orth_center_right) / evolve_pair on a product-operator
+    Hamiltonian h_l (x) h_r (bond dimension 1, identity baths): the declared centre follows
+    orth_center_right, the factors are canonical w.r.t. it, the new bond respects the cap and the
+    result is within precision (absolute) of exp(-i dt h_l h_r) psi unless the cap binds; one-site
+    _evolve keeps the centre."""
+    import types
+    from emu_mps import MPS
+    from emu_mps.mps_backend_impl import MPSBackendImpl
+    for t in range(budget):
+        dim = 2
+        n = rnd.randint(2, 5)
+        scale = rnd.choice([1.0, 1.0, 6.0, 0.2])
+        precision = rnd.choice([1e-2, 1e-3, 1e-5])
+        cap = rnd.choice([64, 64, 2, 1])
+        fs = random_factors(n, dim, rnd.randint(1, 4), 1.0, gen)
+        psi0 = dense(fs)
+        fs[0] = fs[0] / torch.linalg.norm(psi0) * scale
+        st = make_mps(MPS, fs, dim, precision, cap, None)
+        l = rnd.randrange(n - 1)
+        r = l + 1
+        ocr = rnd.random() < 0.5
+        c = rnd.choice([l, r])
+        st.orthogonalize(c)
+        psi = dense(st.factors)
+        hs = []
+        for _ in range(n):
+            a = torch.randn(dim, dim, dtype=dtype, generator=gen)
+            hs.append((a + a.conj().T) / 2)
+        impl = object.__new__(MPSBackendImpl)
+        impl.state = st
+        impl.hamiltonian = types.SimpleNamespace(factors=[h.reshape(1, dim, dim, 1).clone() for h in hs])
+        impl.config = types.SimpleNamespace(precision=precision, max_bond_dim=cap, extra_krylov_tolerance=1e-3,
+                                            max_krylov_dim=100)
+        impl.has_lindblad_noise = False
+        impl.dim = dim
+        chi_l, chi_r = st.factors[l].shape[0], st.factors[r].shape[2]
+        impl.left_baths = [torch.eye(chi_l, dtype=dtype).reshape(chi_l, 1, chi_l)]
+        impl.right_baths = [torch.eye(chi_r, dtype=dtype).reshape(chi_r, 1, chi_r)]
+        dt = rnd.choice([1.0, 10.0, 50.0])
+        label = (f"N={n} |psi|={scale:g} centre={c} pair=({l},{r}) orth_center_right={ocr} precision={precision:g} "
+                 f"max_bond_dim={cap} dt={dt:g}")
+        try:
+            impl._evolve(l, r, dt=dt, orth_center_right=ocr)
+        except Exception as e:
+            return f"_evolve raised {type(e).__name__}: {e} [{label}]"
+        want_c = r if ocr else l
+        if st.orthogonality_center != want_c:
+            return f"_evolve: declared centre {st.orthogonality_center}, expected {want_c} [{label}]"
+        bc = bond_consistency(st.factors)
+        if bc:
+            return f"_evolve: {bc} [{label}]"
+        pr = canonical_problems(st.factors, want_c)
+        if pr:
+            return f"_evolve: {pr[0]} [{label}]"
+        k = st.factors[r].shape[0]
+        if k > cap:
+            return f"_evolve: bond {r} has dimension {k} > max_bond_dim {cap} [{label}]"
+        u = torch.linalg.matrix_exp(-1j * 0.001 * dt * torch.kron(hs[l], hs[r]))
+        want = torch.einsum("ts,asb->atb", u, psi.reshape(dim ** l, dim * dim, -1)).reshape(-1)
+        err2 = (torch.linalg.norm(dense(st.factors) - want) ** 2).item()
+        ktol = (precision * 1e-3 * 10) ** 2 * max(scale, 1.0) ** 2
+        if k != cap and err2 > precision ** 2 * (1 + 1e-6) + ktol + 1e-12 * scale ** 2:
+            return (f"_evolve: |U psi - result|^2 = {err2:.4e} = {err2 / precision**2:.3f} * precision^2 with bond "
+                    f"{k} < cap (absolute units) [{label}]")
+        # one-site evolution keeps the centre and the canonical form
+        idx = st.orthogonality_center
+        chi_l, chi_r = st.factors[idx].shape[0], st.factors[idx].shape[2]
+        impl.left_baths = [torch.eye(chi_l, dtype=dtype).reshape(chi_l, 1, chi_l)]
+        impl.right_baths = [torch.eye(chi_r, dtype=dtype).reshape(chi_r, 1, chi_r)]
+        before = [f.shape for f in st.factors]
+        try:
+            impl._evolve(idx, dt=dt)
+        except Exception as e:
+            return f"_evolve({idx}) raised {type(e).__name__}: {e} [{label}]"
+        if st.orthogonality_center != idx or canonical_problems(st.factors, idx) or \
+                [f.shape for f in st.factors] != before:
+            return f"_evolve({idx}): centre {st.orthogonality_center}, canonical form or shapes broken [{label}]"
+    return None
+
+
 # ------------------------------------------------------------------------------------------------
 def main():
     rec = json.load(open(sys.argv[1]))
@@ -401,8 +482,11 @@ def main():
     plan = [("truncate_impl", lambda: falsify_truncate_impl(rnd, gen, 1000)),
             ("MPS.truncate", lambda: falsify_mps_truncate(rnd, gen, 1000)),
             ("MPS.orthogonalize", lambda: falsify_orthogonalize(rnd, gen, 400)),
-            ("scaling", lambda: falsify_scaling(rnd, gen, 200))]
+            ("scaling", lambda: falsify_scaling(rnd, gen, 200)),
+            ("_evolve", lambda: falsify_evolve(rnd, gen, 200))]
     first = [p for p in plan if p[0] in ob] or []
+    if "evolve_pair" in ob:
+        first = [plan[4]]
     if any(x in ob for x in ("MPS.norm", "MPS.apply")):
         first = [plan[2]]
     if any(x in ob for x in ("__rmul__", "__imul__", "__add__")):
